@@ -40,6 +40,31 @@ impl Cfg {
     }
 }
 
+static BAD_VISIT_STEPS: std::sync::atomic::AtomicU64 = std::sync::atomic::AtomicU64::new(0);
+static BAD_DISC_STEPS: std::sync::atomic::AtomicU64 = std::sync::atomic::AtomicU64::new(0);
+static BAD_STEP_SAMPLE: Mutex<Option<String>> = Mutex::new(None);
+
+/// the states of a `Path`; every step `(s, action)` -> `s'` of it must be a transition of the model with THAT action
+/// (a path whose states are right but whose action labels are not is not a path of the model)
+fn path_states(g: &GraphModel, p: stateright::Path<u16, u16>, counter: &std::sync::atomic::AtomicU64) -> Vec<u16> {
+    let v = p.into_vec();
+    for w in v.windows(2) {
+        let ok = match w[0].1 {
+            Some(a) => g.adj[w[0].0 as usize].get(a as usize).copied().flatten() == Some(w[1].0),
+            None => false,
+        };
+        if !ok {
+            counter.fetch_add(1, std::sync::atomic::Ordering::Relaxed);
+            let mut sm = BAD_STEP_SAMPLE.lock().unwrap();
+            if sm.is_none() { *sm = Some(format!("step {} --{:?}--> {} in path {:?}", w[0].0, w[0].1, w[1].0, v)); }
+        }
+    }
+    if let Some(last) = v.last() {
+        if last.1.is_some() { counter.fetch_add(1, std::sync::atomic::Ordering::Relaxed); }
+    }
+    v.into_iter().map(|x| x.0).collect()
+}
+
 fn path_sx(p: &[u16]) -> String { format!("({})", p.iter().map(|x| x.to_string()).collect::<Vec<_>>().join(" ")) }
 
 /// run the real checker; returns the canonical observation string or "panic"
@@ -47,11 +72,12 @@ fn observe(g: &GraphModel, strat: &str, cfg: &Cfg) -> String {
     let visits: Arc<Mutex<Vec<Vec<u16>>>> = Arc::new(Mutex::new(vec![]));
     let v2 = visits.clone();
     let g2 = g.clone();
+    let g3 = g.clone();
     let strat = strat.to_string();
     let cfg = cfg.clone();
     let r = catch_unwind(AssertUnwindSafe(move || {
         let mut b = g2.clone().checker().threads(1).finish_when(cfg.has_disc())
-            .visitor(move |p: stateright::Path<u16, u16>| { v2.lock().unwrap().push(p.into_states()); });
+            .visitor(move |p: stateright::Path<u16, u16>| { v2.lock().unwrap().push(path_states(&g3, p, &BAD_VISIT_STEPS)); });
         if let Some(d) = cfg.max_depth { b = b.target_max_depth(d); }
         if let Some(t) = cfg.target { b = b.target_state_count(t); }
         match strat.as_str() {
@@ -101,11 +127,12 @@ fn observe_sim(g: &GraphModel, cfg: &Cfg, script: &[usize]) -> String {
     let visits: Arc<Mutex<Vec<Vec<u16>>>> = Arc::new(Mutex::new(vec![]));
     let v2 = visits.clone();
     let g2 = g.clone();
+    let g3 = g.clone();
     let cfg = cfg.clone();
     let chooser = ScriptChooser { script: Arc::new(script.to_vec()), pos: Arc::new(std::sync::atomic::AtomicUsize::new(0)) };
     let r = catch_unwind(AssertUnwindSafe(move || {
         let mut b = g2.clone().checker().threads(1).finish_when(cfg.has_disc())
-            .visitor(move |p: stateright::Path<u16, u16>| { v2.lock().unwrap().push(p.into_states()); });
+            .visitor(move |p: stateright::Path<u16, u16>| { v2.lock().unwrap().push(path_states(&g3, p, &BAD_VISIT_STEPS)); });
         if let Some(d) = cfg.max_depth { b = b.target_max_depth(d); }
         if let Some(t) = cfg.target { b = b.target_state_count(t); }
         let c = b.spawn_simulation(0, chooser).join();
@@ -127,7 +154,7 @@ fn summarize<C: Checker<GraphModel>>(c: &C) -> (usize, usize, usize, BTreeMap<us
     let mut disc = BTreeMap::new();
     for (name, path) in c.discoveries() {
         let i = NAMES.iter().position(|n| *n == name).unwrap();
-        disc.insert(i, path.into_states());
+        disc.insert(i, path_states(c.model(), path, &BAD_DISC_STEPS));
     }
     (c.unique_state_count(), c.state_count(), c.max_depth(), disc)
 }
@@ -329,10 +356,11 @@ fn main() {
             let workers: Arc<Mutex<std::collections::BTreeSet<String>>> = Arc::new(Mutex::new(Default::default()));
             let w2 = workers.clone();
             let g2 = g.clone();
+            let g3 = g.clone();
             let res = catch_unwind(AssertUnwindSafe(move || {
                 let b = g2.clone().checker().threads(threads)
                     .visitor(move |p: stateright::Path<u16, u16>| {
-                        v2.lock().unwrap().push(p.into_states());
+                        v2.lock().unwrap().push(path_states(&g3, p, &BAD_VISIT_STEPS));
                         w2.lock().unwrap().insert(std::thread::current().name().unwrap_or("?").to_string());
                     });
                 match strat {
@@ -439,11 +467,12 @@ fn main() {
                     let visits: Arc<Mutex<Vec<Vec<u16>>>> = Arc::new(Mutex::new(vec![]));
                     let v2 = visits.clone();
                     let g2 = g.clone();
+                    let g3 = g.clone();
                     // C12: a target_state_count beyond the first 1500-job block
                     let target: Option<usize> = if prop == "c12" { Some(1600 + r.below(reach.len().saturating_sub(1600).max(1))) } else { None };
                     let res = catch_unwind(AssertUnwindSafe(move || {
                         let mut b = g2.clone().checker().threads(1)
-                            .visitor(move |p: stateright::Path<u16, u16>| { v2.lock().unwrap().push(p.into_states()); });
+                            .visitor(move |p: stateright::Path<u16, u16>| { v2.lock().unwrap().push(path_states(&g3, p, &BAD_VISIT_STEPS)); });
                         if let Some(t) = target { b = b.target_state_count(t); }
                         match strat {
                             "bfs" => summarize(&b.spawn_bfs().join()),
@@ -506,6 +535,17 @@ fn main() {
             }
         }
         out.sample("long/wide single-threaded graphs: corridor, star, many-init, comb with 1800-3300 states (more than one 1500-job block)");
+    }
+    {
+        use std::sync::atomic::Ordering::Relaxed;
+        let sample = BAD_STEP_SAMPLE.lock().unwrap().clone().unwrap_or_default();
+        if BAD_VISIT_STEPS.load(Relaxed) > 0 && (prop == "c01" || prop == "c03" || prop == "c13") {
+            out.v("visitor-path-step-not-a-model-transition", &format!("{} steps of paths shown to the visitor carry an action that does not lead to the next state; first: {}", BAD_VISIT_STEPS.load(Relaxed), sample));
+        }
+        if BAD_DISC_STEPS.load(Relaxed) > 0 {
+            out.v("discovery-path-step-not-a-model-transition", &format!("{} steps of discovery paths carry an action that does not lead to the next state; first: {}", BAD_DISC_STEPS.load(Relaxed), sample));
+        }
+        out.stat("path-action-labels-checked");
     }
     out.finish();
 }
